@@ -128,7 +128,7 @@ impl G {
 
 /// (zero-width code points - combining acute, ZWSP, ZWJ, VS16 - occupy a cell like any other
 /// printable; they are here so that code which starts to look at display widths is seen)
-pub const TEXT_CHARS: [char; 22] = ['a', 'b', 'c', 'x', 'y', 'z', ' ', 'q', '~', '`', 'j', '\u{7f}', 'é', '世', '─', '\u{a0}', '😀', 'E', '\u{301}', '\u{200b}', '\u{200d}', '\u{fe0f}'];
+pub const TEXT_CHARS: [char; 26] = ['a', 'b', 'c', 'x', 'y', 'z', ' ', 'q', '~', '`', 'j', '\u{7f}', 'é', '世', '─', '\u{a0}', '😀', 'E', '\u{301}', '\u{200b}', '\u{200d}', '\u{fe0f}', 'Š', '你', '|', '\u{2666}'];
 
 pub fn text_char(src: &mut Src) -> char {
     *src.pick(&TEXT_CHARS)
@@ -711,7 +711,9 @@ pub fn frag_cat(src: &mut Src, g: &G, cat: usize) -> String {
             format!("{}{}", csi(src, g), s)
         }
         CAT_DECALN => "\x1b#8".to_string(),
-        CAT_DECSTR => format!("{}!p", csi(src, g)),
+        // (DECSTR takes no parameters; written with some it is still DECSTR and must leave
+        // none of them behind for the next sequence)
+        CAT_DECSTR => format!("{}{}!p", csi(src, g), *src.pick(&["", "", "", "0", "2;7", "0;6;9", ";3"])),
         CAT_RIS => "\x1bc".to_string(),
         CAT_INERT => inert(src, g),
         CAT_RAW => raw(src, g),
